@@ -8,4 +8,6 @@ func verifClosed(<-chan struct{}) bool { return false }
 
 func verifReady(...bool) bool { return false }
 
-func verifPick(string, ...bool) int { return 0 }
+func verifPick(string, ...bool) {}
+
+func verifTook(string, int) {}
